@@ -245,6 +245,25 @@ function makeEraser (prefix) {
         return node
       case 'SequenceExpression':
         return eraseSeq(node)
+      case 'AssignmentExpression': {
+        // (t0 = O)[t1 = K] = (t2 = t0[t1], hook(t2 + E, t2, E))  ->  O[K] += E   (children are erased already,
+        // so the right side reads `t0[t1] + E` with the hook annotation)
+        const l = node.left
+        if (node.operator !== '=' || l.type !== 'MemberExpression') return node
+        const isHoist = x => x && x.type === 'AssignmentExpression' && x.operator === '=' && isTemp(x.left)
+        const objH = isHoist(l.object)
+        const keyH = l.computed && isHoist(l.property)
+        if (!objH && !keyH) return node
+        const r = node.right
+        if (!(r.type === 'BinaryExpression' && r.operator === '+' && r.__hook && r.left.type === 'MemberExpression' && !!r.left.computed === !!l.computed)) return node
+        const d = []
+        if (objH) { if (!(isTemp(r.left.object) && r.left.object.name === l.object.left.name)) return node } else eq(r.left.object, l.object, '', d, 1)
+        if (keyH) { if (!(isTemp(r.left.property) && r.left.property.name === l.property.left.name)) return node } else eq(r.left.property, l.property, '', d, 1)
+        if (d.length) return node
+        stats.targetsSplit = (stats.targetsSplit || 0) + 1
+        const target = Object.assign({}, l, { object: objH ? l.object.right : l.object, property: keyH ? l.property.right : l.property })
+        return { type: 'AssignmentExpression', operator: '+=', left: target, right: r.right, __hook: r.__hook, __origOp: undefined }
+      }
       default:
         return node
     }
